@@ -1,9 +1,9 @@
 SPECIFICATION Spec
 CONSTANTS
   NameSeq <- NamesAB
-  MaxFile = 3
-  MaxLen = 4
-  Counts <- Counts12
+  MaxFile = 4
+  MaxLen = 5
+  Counts <- Counts13
   CfgSet <- CfgRefs
   MODE = "refs"
   Fails <- NoFail
@@ -14,7 +14,7 @@ CONSTANTS
   DirN <- Dir02
   MAXSEEK = 1000
   SPECIAL_A = TRUE
-  Sample = 40
+  Sample = 400
   WithDetail <- NoDetail
 INVARIANTS NoViol Resolves
 CONSTRAINT Export
